@@ -25,6 +25,7 @@ type ModTarget struct {
 	Heap *TypeExpr // "heap T": whole heap of pointer target / map type
 	MapOf bool     // "map m": the contents of map m
 	Group string   // "heaps NAME": every heap of a named group
+	Ghost string   // "ghost NAME": a global ghost variable
 	Src  string
 }
 
@@ -99,9 +100,10 @@ type ContractSet struct {
 	Funs   []*SpecFun
 	Axioms []*Axiom
 	Groups map[string][]*TypeExpr // named groups of heap types: heaps NAME = T1, T2, ...
+	Ghosts []string               // global boolean ghost variables: ghost NAME bool
 }
 
-var kwRe = regexp.MustCompile(`^(func|extern|fun|ofun|heaps|axiom|lemma|aspect|requires|ensures|modifies|decreases|loop|pure|fresh|havocs|maypanic|panics|inline|assumed|props|noframe|uses|trusted_ensures)\b`)
+var kwRe = regexp.MustCompile(`^(func|extern|fun|ofun|heaps|ghost|axiom|lemma|aspect|requires|ensures|modifies|decreases|loop|pure|fresh|havocs|maypanic|panics|inline|assumed|props|noframe|uses|trusted_ensures)\b`)
 
 type rawItem struct {
 	kw   string
@@ -194,6 +196,13 @@ func (cs *ContractSet) load(path, pkgPath string) error {
 			}
 			cs.Funcs = append(cs.Funcs, fc)
 			cur = fc
+		case "ghost":
+			f := strings.Fields(it.text)
+			if len(f) != 2 || f[1] != "bool" {
+				return fail(it, "ghost NAME bool")
+			}
+			cs.Ghosts = append(cs.Ghosts, f[0])
+			cur = nil
 		case "heaps":
 			i := strings.Index(it.text, "=")
 			if i < 0 {
@@ -395,6 +404,10 @@ func parseModifies(text string) ([]ModTarget, error) {
 		}
 		if strings.HasPrefix(part, "heaps ") {
 			out = append(out, ModTarget{Group: strings.TrimSpace(part[6:]), Src: part})
+			continue
+		}
+		if strings.HasPrefix(part, "ghost ") {
+			out = append(out, ModTarget{Ghost: strings.TrimSpace(part[6:]), Src: part})
 			continue
 		}
 		if strings.HasPrefix(part, "heap ") {
